@@ -64,6 +64,14 @@ ASSUMPTIONS = [
     "the bound 2^31 is C09_clean_divide_full_2p31. The XFieldElement instances of divide / xgcd / fpsi_minimal / "
     "structured_multiple / reduce / fast_reduce are unconditional (C09_xfe_*: proofs/XFieldOk.v, XFieldNtt.v, XFieldPoly.v). "
     "Still partial: formal_power_series_inverse_newton (C09_fpsi_newton_full)",
+    "UPDATE (deepening, props/C09b.v, proofs/PolyDeepenNewton.v, PolyDeepenDiv.v): formal_power_series_inverse_newton is now "
+    "PROVED for every precision and every arm including the rounds in the NTT domain - C09_fpsi_newton_spec (generic, under the "
+    "C06 hypotheses plus the compatibility wr(l+1)^2 = wr(l) of the roots) and C09_bfe_fpsi_newton (BFieldElement, nothing "
+    "assumed; the compatibility of the regenerated table is C09_bfe_root_table_squares, by vm_compute over the 33 entries). The "
+    "placeholder C09_fpsi_newton_full asks for precision * degree < 2^30; that admits inputs whose full evaluation domain has "
+    "2^32 elements, which ntt rejects: C09_fpsi_newton_panics_at_full_domain_2_32 exhibits one (1 + X^1023 at precision "
+    "2^20 + 1, proved without executing it); the proved statement has the bound precision * max(1, degree) <= 2^29. "
+    "BFieldElement instances of reduce / fast_reduce / structured_multiple_of_degree / reduce_by_ntt_friendly_modulus: C09_bfe_*",
 ]
 RULE = ("(dividend degree, divisor degree) around (4d, d) for d in {1,2,127,128,129,255,256,257,511,512,513} (+1023..1025 "
         "thorough) for divide / reduce / fast_reduce / rem / div, both fields; divisors with root 0 and double root 0; divisors "
